@@ -159,40 +159,39 @@ def _line(fade, at):
 
 
 def oracle(run):
-    """Model independent, on the platform's log, for every channel of the batched platform (the extra lights too):
-    per round (one taken dirty set) every dirty channel is handed to the update callback exactly once, with the brightness
-    computed for it in this round, in lists of successive channels no longer than the batch size; a channel may be left
-    out only when the last thing transmitted to it was already that brightness; every (brightness, fade) pair lies on
-    the channel's logical fade and never exceeds the hardware's maximum fade; at rest the platform has received the target
-    of every channel's latest set_fade."""
+    """On the platform's log, for every channel of the batched platform (the extra lights too).
+    PROPERTY (fails): at rest the platform has received, for every channel, the corrected logical colour of its light (the
+    main lights are checked per sample by Run.oracle_sample; here the extra lights).
+    OBSERVATIONS (transient hardware output, outside what C09 states; counted, never failed): per round (one taken dirty
+    set) every dirty channel is handed to the update callback exactly once, with the brightness computed for it in this
+    round, in lists of successive channels no longer than the batch size; a channel is left out only when the last thing
+    transmitted to it was already that brightness; every (brightness, fade) pair lies on the channel's logical fade and
+    never exceeds the hardware's maximum fade (not so on the code as it is - D31: the cached target is answered with
+    fade 0 while the hardware fade is running)."""
     p = run.batch_platform
     M = MAX_FADE_MS
     tol = int(1 / p.system.update_hz * 1000)
     last_sent = {}          # index -> brightness last handed to the callback
-    cur_fade = {}           # index -> latest set_fade tuple
     rounds = []             # [taken, {index: (b, fade_ms, done)}, [flush lists]]
-    fails = []
 
     def close(rnd):
         taken, comp, lists, before = rnd
         sent = [i for lst in lists for i, _ in lst]
         if len(sent) != len(set(sent)):
-            fails.append(("batch-channel-sent-twice-in-one-round", {"taken": taken, "lists": lists}))
+            run.observe("batch_channel_sent_twice_in_one_round")
         for i in taken:
             if i in comp and i not in sent:
                 b, _, done = comp[i]
                 if not done or before.get(i) is None or abs(before[i] - b) > 1e-9:
-                    fails.append(("batch-dirty-channel-not-sent", {"channel": i, "taken": taken, "lists": lists,
-                                                                   "computed": comp[i], "last_sent": before.get(i)}))
+                    run.observe("batch_dirty_channel_not_sent")
         for i in sent:
             if i not in taken:
-                fails.append(("batch-clean-channel-sent", {"channel": i, "taken": taken, "lists": lists}))
+                run.observe("batch_clean_channel_sent")
+        run.observe("batch_rounds_checked")
 
     for ev in p.log:
         kind = ev[0]
-        if kind == "mark":
-            cur_fade[ev[2]] = tuple(ev[3:7])
-        elif kind == "take":
+        if kind == "take":
             if rounds:
                 close(rounds[-1])
             rounds.append([list(ev[2]), {}, [], dict(last_sent)])
@@ -201,19 +200,14 @@ def oracle(run):
             if rounds:
                 rounds[-1][1][i] = (b, fade_ms, done)
             sb, st, tb, tt = fade
-            what = None
+            off = False
             if not (0 <= fade_ms <= max(M, 0)):
-                what = "fade out of range"
+                off = True
             elif tt < 0 or (tt - ct) * 1000.0 <= M + 1e-6:
-                if not done or abs(b - tb) > 1e-9 or abs(fade_ms - max(0.0, (tt - ct) * 1000.0)) > 1.0 and tt >= 0:
-                    what = "fade that fits the hardware must be handed over as (target, remaining time)"
+                off = not done or abs(b - tb) > 1e-9 or (tt >= 0 and abs(fade_ms - max(0.0, (tt - ct) * 1000.0)) > 1.0)
             else:
-                if done or fade_ms != M or abs(b - _line(fade, ct + M / 1000.0)) > 1e-9:
-                    what = "intermediate step is not on the logical fade"
-            if what:
-                fails.append(("hw-fade-command-off-the-logical-fade-batch",
-                              {"channel": i, "what": what, "brightness": b, "fade_ms": fade_ms, "done": done,
-                               "set_fade": list(fade), "now": ct, "max_fade_ms": M}))
+                off = done or fade_ms != M or abs(b - _line(fade, ct + M / 1000.0)) > 1e-9
+            run.observe("batch_hw_fade_command_off_the_logical_fade" if off else "batch_hw_fade_command_on_the_logical_fade")
         elif kind == "flush":
             lst, fades = ev[2], ev[3]
             if rounds:
@@ -221,30 +215,29 @@ def oracle(run):
                 comp = rounds[-1][1]
                 for (i, b), f in zip(lst, fades):
                     if i not in comp or abs(comp[i][0] - b) > 1e-9:
-                        fails.append(("batch-channel-sent-with-wrong-brightness", {"channel": i, "sent": b, "computed": comp.get(i)}))
+                        run.observe("batch_channel_sent_with_wrong_brightness")
                     elif not abs(comp[i][1] - f) < max(tol, 1):
-                        fails.append(("batch-fade-differs-by-tolerance-or-more", {"channel": i, "sent_fade": f, "own_fade": comp[i][1]}))
+                        run.observe("batch_fade_differs_by_tolerance_or_more")
             idx = [i for i, _ in lst]
             if not idx or len(idx) > BATCH_SIZE or any(b != a + 1 for a, b in zip(idx, idx[1:])):
-                fails.append(("batch-list-not-sequential-or-too-long", {"list": lst, "batch_size": BATCH_SIZE}))
+                run.observe("batch_list_not_sequential_or_too_long")
             for i, b in lst:
                 last_sent[i] = b
-    if rounds:
-        # the last round is complete unless the sender is still inside it
-        if not (p.in_flight or p.system.dirty_lights):
-            close(rounds[-1])
+    if rounds and not (p.in_flight or p.system.dirty_lights):
+        close(rounds[-1])
+    # at rest: the extra lights' channels carry their lights' corrected logical colour
     t = run.tick()
     rest_from = max(run.busy_until, run.last_op_t, getattr(run, "fill_busy", -1)) + run.batch_lag
     if t >= rest_from:
-        for i, light in sorted(p.lights.items()):
-            if i in cur_fade and (light.sent is None or abs(light.sent - cur_fade[i][2]) > 1e-9):
-                fails.append(("quiescent-hw-differs-batch-channel", {"channel": i, "hw": light.sent, "want": cur_fade[i][2]}))
+        for name, number in FILL:
+            light = run.vm.machine.lights[name]
+            col = tuple(light.get_color())
+            want = min(run.corrected(light, col)) / 255
+            hw = p.lights[number].sent
+            if (hw if hw is not None else 0.0) != want and abs((hw or 0.0) - want) > 1e-9:
+                run.fail.append(("quiescent-hw-differs-batch", {"light": name, "channel": number, "hw": hw, "want": want,
+                                                                "logical": col, "t": t}))
                 break
-    seen = set()
-    for sig, detail in fails:
-        if sig not in seen:
-            seen.add(sig)
-            run.fail.append((sig, detail))
     return len(rounds)
 
 
